@@ -968,12 +968,15 @@ class Pregex():
                 # Remove name from named capturing group.
                 pattern = _re.sub('\(\?P<[^>]*>',
                     f"(?{'i' if is_case_insensitive else ''}:", str(self), count=1)
-            elif self.__pattern.startswith('(?'):
+            elif _re.match(r'\(\?i?:', self.__pattern):
                 # Remove any possible flags from non-capturing group.
                 pattern = _re.sub(
-                    r'\(\?[i]*:', f"(?{'i' if is_case_insensitive else ''}:",
+                    r'\(\?i?:', f"(?{'i' if is_case_insensitive else ''}:",
                     self.__pattern,
                     count=1)
+            elif self.__pattern.startswith('(?'):
+                # Any other special group (other flags, atomic) is wrapped as it is.
+                pattern = f"(?{'i' if is_case_insensitive else ''}:{self})"
             else:
                 # Else convert capturing group to non-capturing group.
                 pattern = self.__pattern.replace('(',
